@@ -45,16 +45,17 @@ def _guarded_by_membership(mod, call: ast.Call, arg: str, seen: str, fn: ast.Fun
         if p is fn:
             break
         if isinstance(p, ast.If):
-            t = p.test
-            if (
-                isinstance(t, ast.Compare)
-                and len(t.ops) == 1
-                and isinstance(t.ops[0], ast.NotIn)
-                and norm(t.left) == arg
-                and norm(t.comparators[0]) == seen
-                and any(call is x for s in p.body for x in ast.walk(s))
-            ):
-                return True
+            # the test itself or a conjunct of it (`if self.more and o not in seen:`)
+            for t in (p.test.values if isinstance(p.test, ast.BoolOp) and isinstance(p.test.op, ast.And) else [p.test]):
+                if (
+                    isinstance(t, ast.Compare)
+                    and len(t.ops) == 1
+                    and isinstance(t.ops[0], ast.NotIn)
+                    and norm(t.left) == arg
+                    and norm(t.comparators[0]) == seen
+                    and any(call is x for s in p.body for x in ast.walk(s))
+                ):
+                    return True
     # preceding sibling guard in any enclosing block
     node: ast.AST = call
     for p in mod.parents(call):
@@ -210,8 +211,53 @@ def run(repo: Repo, rep: Report) -> None:
                    ("recursion on %s only when not in %s; %s.add(%s) on entry" % (arg, sv, sv, added)) if ok
                    else "recursive call on %s is not guarded by a membership test in %s: the closure does not terminate on a cycle" % (arg, sv),
                    node=c)
+    # the same discipline for helpers that keep their frontier in a work list instead of recursing: a push of a further step
+    # evaluation `W.append(eval_path(graph, (.., X, ..)))` happens only when X is not in the visited set, X is added to the set
+    # with the push, and the start cursor is added before the loop
+    for hname, h in helpers.items():
+        params = [a.arg for a in h.args.args]
+        seen_ps = [p for p in params if any(isinstance(x, ast.Call) and isinstance(x.func, ast.Attribute) and x.func.attr == "add" and norm(x.func.value) == p for x in ast.walk(h))]
+        if not seen_ps:
+            continue
+        sv = seen_ps[0]
+        loop_targets = {n.id for l in ast.walk(h) if isinstance(l, ast.For) for n in ast.walk(l.target) if isinstance(n, ast.Name)}
+        for c in ast.walk(h):
+            if not (isinstance(c, ast.Call) and isinstance(c.func, ast.Attribute) and c.func.attr in ("append", "extend", "appendleft") and c.args
+                    and isinstance(c.args[0], ast.Call) and norm(c.args[0].func) == "eval_path"):
+                continue
+            inloop = any(isinstance(p, (ast.For, ast.While)) for p in paths.parents(c) if p is not h)
+            if not inloop:
+                continue
+            step = c.args[0]
+            cursors = [n.id for a in step.args for n in ast.walk(a) if isinstance(n, ast.Name) and n.id in loop_targets]
+            rec += 1
+            if len(cursors) != 1:
+                rep.ob("C11.c-closure-guard", paths, "MulPath.eval." + hname, c, False, "cannot tell which node the pushed step starts from: %s" % norm(step), node=c)
+                continue
+            cur = cursors[0]
+            guarded = _guarded_by_membership(paths, c, cur, sv, h)
+            st = paths.parent.get(id(c))
+            while st is not None and not isinstance(paths.parent.get(id(st)), (ast.If, ast.For, ast.While, ast.FunctionDef)):
+                st = paths.parent.get(id(st))
+            owner = paths.parent.get(id(st))
+            blk = next((b for b in (getattr(owner, "body", None), getattr(owner, "orelse", None)) if isinstance(b, list) and st in b), [])
+            marked = any(isinstance(x, ast.Expr) and isinstance(x.value, ast.Call) and isinstance(x.value.func, ast.Attribute) and x.value.func.attr == "add"
+                         and norm(x.value.func.value) == sv and x.value.args and norm(x.value.args[0]) == cur for x in blk)
+            start_marked = False
+            for x in h.body:
+                if isinstance(x, (ast.For, ast.While)):
+                    break
+                if isinstance(x, ast.Expr) and isinstance(x.value, ast.Call) and isinstance(x.value.func, ast.Attribute) and x.value.func.attr == "add" \
+                        and norm(x.value.func.value) == sv and x.value.args and norm(x.value.args[0]) in params:
+                    start_marked = True
+            ok = guarded and marked and start_marked
+            rep.ob("C11.c-closure-guard", paths, "MulPath.eval." + hname, c, ok,
+                   "a step from %s is pushed only when %s is not in %s, and %s is added with the push; the start cursor is added on entry" % (cur, cur, sv, cur) if ok else
+                   "the push of a further step from %s is %s: the closure %s" % (
+                       cur, "not guarded by `%s not in %s`" % (cur, sv) if not guarded else ("not accompanied by %s.add(%s)" % (sv, cur) if not marked else "made without the start cursor in %s" % sv),
+                       "does not terminate on a cycle" if not (guarded and marked) else "revisits its start node"), node=c)
     if rec < 2:
-        raise AnalysisError("expected >= 2 self-recursive helper calls in MulPath.eval, found %d" % rec)
+        raise AnalysisError("expected >= 2 frontier expansions (recursive calls or work-list pushes) in the helpers of MulPath.eval, found %d" % rec)
     # driver yields
     helper_nodes = {id(x) for h in helpers.values() for x in ast.walk(h)}
     zero_if = None
@@ -374,10 +420,15 @@ def run_extra(repo: Repo, rep: Report) -> None:
     from vlib.cfg import CFG
 
     for hname, h in helpers.items():
-        if not any(isinstance(c, ast.Call) and isinstance(c.func, ast.Name) and c.func.id == hname for c in ast.walk(h)):
+        expands = any(isinstance(c, ast.Call) and isinstance(c.func, ast.Name) and c.func.id == hname for c in ast.walk(h)) or any(
+            isinstance(c, ast.Call) and isinstance(c.func, ast.Attribute) and c.func.attr in ("append", "extend", "appendleft") and c.args
+            and isinstance(c.args[0], ast.Call) and norm(c.args[0].func) == "eval_path" and any(isinstance(p, (ast.For, ast.While)) for p in paths.parents(c) if p is not h)
+            for c in ast.walk(h))
+        if not expands:
             continue
         g = CFG(h)
-        loops_ = [n for n in own_nodes(h) if isinstance(n, ast.For)]
+        loops_ = [n for n in own_nodes(h) if isinstance(n, ast.For) and any(isinstance(y, ast.Yield) for y in ast.walk(n))
+                  and not any(isinstance(c, ast.Call) and isinstance(c.func, ast.Name) and c.func.id == hname for c in ast.walk(n.iter))]
         if not loops_:
             raise AnalysisError("MulPath.eval.%s: no traversal loop" % hname)
         loop = loops_[0]
@@ -389,14 +440,37 @@ def run_extra(repo: Repo, rep: Report) -> None:
                 for c in ast.walk(nd.ast.test):
                     if isinstance(c, ast.Compare) and isinstance(c.ops[0], (ast.In, ast.NotIn)) and norm(c.comparators[0]) in params:
                         seen_tests.add(nd.id)
-        tgt = [norm(e) for e in loop.target.elts] if isinstance(loop.target, ast.Tuple) else []
+        tgt = {n.id for n in ast.walk(loop.target) if isinstance(n, ast.Name)}
         for y in own_nodes(h):
-            if isinstance(y, ast.Yield) and y.value is not None and isinstance(y.value, ast.Tuple) and [norm(e) for e in y.value.elts] == tgt:
+            # the yield of the edge just found: it names an end of the edge the loop enumerates
+            nearest = next((p for p in paths.parents(y) if isinstance(p, (ast.For, ast.While))), None)
+            if nearest is not loop:
+                continue  # (a loop that passes on the results of a recursive call)
+            if isinstance(y, ast.Yield) and y.value is not None and isinstance(y.value, ast.Tuple) and any(isinstance(e, ast.Name) and e.id in tgt for e in y.value.elts):
                 yn = g.node_of(y, paths)
                 free = yn in g.reach(head, avoid=seen_tests)
                 rep.ob("C11.c2-seen-prunes-expansion-only", paths, "MulPath.eval." + hname, y, free,
                        "the found edge is yielded on a path that does not consult the visited set" if free else
                        "the found edge is only yielded after the visited-set test: pairs that close a cycle are lost", node=y)
+
+    # (k) the closure walk does not recurse once per hop
+    rep.rule(
+        "C11.k-closure-walk-not-recursive-per-hop",
+        "the traversal helpers of MulPath.eval (p+, p*) do not call themselves for the next node of the walk: one generator frame per hop makes a "
+        "simple chain of about a thousand edges (sys.getrecursionlimit()) raise RecursionError instead of answering - `?x rdf:rest*/rdf:first ?m` "
+        "on a 1000-member list. The frontier is kept in an explicit work list",
+        floor=2,
+    )
+    for hname, h in helpers.items():
+        if not any(isinstance(x, ast.Call) and norm(x.func) == "eval_path" for x in ast.walk(h)):
+            continue
+        selfcalls = [c for c in ast.walk(h) if isinstance(c, ast.Call) and isinstance(c.func, ast.Name) and c.func.id == hname]
+        if not selfcalls and not any(isinstance(x, (ast.For, ast.While)) for x in own_nodes(h)):
+            continue
+        rep.ob("C11.k-closure-walk-not-recursive-per-hop", paths, "MulPath.eval." + hname, selfcalls[0] if selfcalls else "no self-call", not selfcalls,
+               "iterative walk" if not selfcalls else
+               "%s calls itself for every node it reaches: the depth of the Python stack grows with the length of the path walked, a chain longer than the recursion limit raises RecursionError" % hname,
+               node=selfcalls[0] if selfcalls else h)
 
     # (f) composition is unfiltered
     rep.rule(
